@@ -249,7 +249,7 @@ Proof.
                   | Some ret0 =>
                     match ret0 with
                     | VHash x => hash_walk f h x dp (S i) ret0 setv
-                    | VStack b pn sc => stack_walk f h b pn sc (skipn (S i) dp) 0 VNull setv
+                    | VStack b pn sc => stack_walk f h b pn sc (n2 :: rest2) 0 VNull setv
                     | _ => Err ENotRec
                     end
                   end
@@ -266,17 +266,15 @@ Proof.
             apply (IHh h x dp (S i) (VHash x) setv Hi2 Hn).
             destruct setv; exact Hfuel.
           - (* a stack held by a hash: dotpaths[i+1:] is the rest of the path *)
-            assert (Hn1 : names_ok (skipn (S i) dp)) by (apply names_ok_skipn; exact Hn).
-            assert (Hl1 : (0 < length (skipn (S i) dp))%nat) by (rewrite Erest; simpl; lia).
+            assert (Hn1 : names_ok (n2 :: rest2)).
+            { rewrite <- Erest. apply names_ok_skipn; exact Hn. }
+            assert (Hl1 : (0 < length (n2 :: rest2))%nat) by (simpl; lia).
             destruct b'.
-            + pose proof (IHs h pn' sc' (skipn (S i) dp) 0%nat VNull setv Hl1 Hn1) as E1.
-              change (skipn 0 (skipn (S i) dp)) with (skipn (S i) dp) in E1.
-              rewrite Erest in E1. rewrite Erest.
-              apply E1. destruct setv; exact Hfuel.
+            + apply (IHs h pn' sc' (n2 :: rest2) 0%nat VNull setv Hl1 Hn1).
+              destruct setv; exact Hfuel.
             + destruct f as [|f'].
               * exfalso. destruct setv; apply Hfuel; reflexivity.
-              * 
-                rewrite (stack_walk_notpkg f' h pn' sc' (skipn (S i) dp) 0 VNull setv Hl1).
+              * rewrite (stack_walk_notpkg f' h pn' sc' (n2 :: rest2) 0 VNull setv Hl1).
                 reflexivity. }
         destruct setv; exact Hstep.
 Qed.
@@ -534,7 +532,7 @@ Qed.
 
 End WithUpper.
 
-(* ---------- concrete worlds: the refuted unconditional claim and non-vacuity ---------- *)
+(* ---------- concrete worlds: non-vacuity ---------- *)
 Definition ascii_upper (z : Z) : bool := (65 <=? z) && (z <=? 90).
 
 Definition n_pk : name := [112; 107].        (* pk *)
